@@ -544,6 +544,40 @@ func c12ForeignContext(b *core.B) {
 	}
 }
 
+// c12EmptyBlocks: a block with nothing in it is still the call's block: the helper context
+// says it has one, and rendering it gives the empty string, not an error.
+func c12EmptyBlocks(b *core.B) {
+	for _, t := range []string{"<%= probe() { } %>", "<%= probe() {} %>", "<%= probe() { %><% } %>", "<%= probeI() { %><% } %>", "<%= probeP() { } %>", "<%= probe() { # nothing\n } %>", "<%= probe() %>"} {
+		if !b.Begin("empty block: " + t) {
+			continue
+		}
+		b.NonTrivialStr("empty-block", t)
+		b.Count("calls-with-an-empty-block")
+		ctx := plush.NewContext()
+		ctx.Set("probe", func(h plush.HelperContext) string {
+			s, err := h.Block()
+			return fmt.Sprintf("has=%v block=%q err=%v", h.HasBlock(), s, err != nil)
+		})
+		ctx.Set("probeI", func(h hctx.HelperContext) string {
+			s, err := h.Block()
+			return fmt.Sprintf("has=%v block=%q err=%v", h.HasBlock(), s, err != nil)
+		})
+		ctx.Set("probeP", func(h *plush.HelperContext) string {
+			s, err := h.Block()
+			return fmt.Sprintf("has=%v block=%q err=%v", h.HasBlock(), s, err != nil)
+		})
+		res := render(b, t, ctx)
+		want := `has=true block="" err=false`
+		if t == "<%= probe() %>" {
+			want = `has=false block="" err=true`
+		}
+		want = template.HTMLEscapeString(want)
+		if res.Pan == nil && (res.Err != nil || res.Out != want) {
+			b.Violate("block-not-delivered|empty-block", fmt.Sprintf("want %q, got %s", want, res))
+		}
+	}
+}
+
 func c12KeptContexts(b *core.B) {
 	type kept struct {
 		name     string
@@ -699,6 +733,7 @@ func c12Run(b *core.B) {
 	if b.Batch == 0 {
 		c12KeptContexts(b)
 		c12ForeignContext(b)
+		c12EmptyBlocks(b)
 	}
 	// random: 3 fixed parameters and 4-argument calls
 	r := b.Rng(2)
